@@ -27,7 +27,44 @@ type ctorAlt struct {
 // ctorAlts evaluates a constructor and returns its success alternatives that
 // build a fresh object of a named struct type.
 func ctorAlts(ctx *Ctx, fn *ssa.Function, opaque ...string) ([]ctorAlt, *Evaluator) {
+	return ctorAltsWith(ctx, fn, nil, opaque...)
+}
+
+// ctorAltsFollow is ctorAlts that follows a pure delegation. It is used where a
+// closed-form specification (M-spec, L1, BB-4) names the constructor: when that
+// constructor is rewritten to delegate to another one, the specification still
+// applies to the composition. Other delegating helpers (Make*, obj-style wrappers)
+// are not constructors in the sense of the discovery rules and are left alone.
+func ctorAltsFollow(ctx *Ctx, fn *ssa.Function, opaque ...string) ([]ctorAlt, *Evaluator) {
+	out, ev := ctorAltsWith(ctx, fn, nil, opaque...)
+	if len(out) == 0 {
+		// a constructor that only delegates (`return Transform3D(sdf, Scale3d(...))`): the
+		// constructors it calls directly are part of it, not operands
+		deleg := map[*ssa.Function]bool{}
+		allInstrs(fn, func(b *ssa.BasicBlock, ins ssa.Instruction) {
+			if c, ok := ins.(*ssa.Call); ok {
+				if g := c.Call.StaticCallee(); g != nil && inModule(g) && g != fn && len(g.Blocks) > 0 {
+					if res := g.Signature.Results(); res.Len() > 0 && isSDFType(res.At(0).Type()) {
+						deleg[g] = true
+					}
+				}
+			}
+		})
+		if len(deleg) > 0 {
+			if o2, e2 := ctorAltsWith(ctx, fn, deleg, opaque...); len(o2) > 0 {
+				return o2, e2
+			}
+		}
+	}
+	return out, ev
+}
+
+func ctorAltsWith(ctx *Ctx, fn *ssa.Function, alsoInline map[*ssa.Function]bool, opaque ...string) ([]ctorAlt, *Evaluator) {
 	ev := newEval(ctx, opaque...)
+	if alsoInline != nil {
+		base := ev.inline
+		ev.inline = func(g *ssa.Function) bool { return base(g) || alsoInline[g] }
+	}
 	ev.budget = 60000
 	ev.evalRoot(fn)
 	var out []ctorAlt
